@@ -396,6 +396,16 @@ func vfGenC02(rt *rapid.T) vfC02Case {
 		total += f.Size
 		cs.Files = append(cs.Files, f)
 	}
+	blockMultiple := rapid.IntRange(0, 7).Draw(rt, "blockmultiple") == 0
+	if blockMultiple {
+		// file data that is an exact multiple of the 32 KiB blocks the stages work in, sent uncompressed, damaged inside the data
+		cs.Files[0].Size = rapid.SampledFrom([]int64{32768, 32768, 65536, 98304}).Draw(rt, "blocksize")
+		cs.Files[0].Kind = vfKindNoise
+		total = 0
+		for _, f := range cs.Files {
+			total += f.Size
+		}
+	}
 	cs.Cfg = vfGenPairCfg(rt, total)
 	cs.Cfg.Timeout = 1
 	cs.Cfg.Overwrite = rapid.Bool().Draw(rt, "overwrite")
@@ -437,6 +447,14 @@ func vfGenC02(rt *rapid.T) vfC02Case {
 		}
 		l.Delta = rapid.SampledFrom([]int64{1, 1, 2, 100, 1000, 4096, -1, -100, 1 << 20, 1 << 40}).Draw(rt, "jdelta")
 		cs.JLies = append(cs.JLies, l)
+	}
+	if blockMultiple {
+		cs.Cfg.Compress = 2
+		cs.Lies, cs.JLies = nil, nil
+		cs.Faults = append(cs.Faults, vfFaultSpec{Dir: map[bool]string{true: "c2s", false: "s2c"}[cs.Cfg.Upload], Kind: vfFaultFlip, Mode: "typ",
+			Typ: rapid.SampledFrom([]string{"DATA", "BIN", "BIN", "DATA"}).Draw(rt, "blocktyp"), Sel: rapid.IntRange(0, 60).Draw(rt, "blocksel"),
+			BSel: rapid.SampledFrom([]int{-1, -2, -5, -64, -1000, 20, 100, 1000}).Draw(rt, "blockbsel"), Bit: rapid.IntRange(0, 7).Draw(rt, "blockbit"), Late: true})
+		nf = 0
 	}
 	for i := 0; i < nf; i++ {
 		var f vfFaultSpec
